@@ -48,7 +48,7 @@ def fam(t):
         return "float"
     if isinstance(t, Bool):
         return "bool"
-    if isinstance(t, String):
+    if type(t) is String and t.max_length is None:
         return "str"
     if type(t) is Date:
         return "date"
@@ -70,10 +70,12 @@ DOC = {
 
 def expected(src, tgt):
     fs, ft = fam(src), fam(tgt)
-    if fs == "null":
-        return True  # null converts to every type
     if fs == "other" or ft == "other":
         return None
+    if type(tgt) in (Int, Float):
+        return None  # the table only names sized targets
+    if fs == "null":
+        return True  # null converts to every (simple) type
     return DOC.get((fs, ft))
 
 
